@@ -253,7 +253,7 @@ def run(ctx):
     for rp in load_corpus():
         one(rp['version'], rp['val'], 'corpus')
     rng = ctx.rng
-    n = 400 if ctx.tier == 'quick' else 8000
+    n = 300 if ctx.tier == 'quick' else 3000
     for ver in (1, 2, 3):
         for i in range(n):
             one(ver, gen_value(rng, ver, 2), 'generated')
